@@ -377,6 +377,27 @@ def build(active_known=frozenset()):
     return pack
 
 
+FLAG_REPLAY = r'''
+from basilisp.lang import runtime as rt, symbol as sym, keyword as kw, map as lmap
+from basilisp.lang.compiler import generator as gen
+ns = rt.Namespace(sym.symbol("c10-replay-flags"))
+bad = []
+for fname, key in (("_is_redefable", "redef"), ("_is_dynamic", "dynamic")):
+    f = getattr(gen, fname)
+    v = rt.Var(ns, sym.symbol("v-" + key))
+    first = bool(f(v))
+    v.reset_meta(lmap.map({kw.keyword(key): True}))     # what a re-def with ^:redef / ^:dynamic does
+    second = bool(f(v))
+    v.reset_meta(None)
+    third = bool(f(v))
+    if (first, second, third) != (False, True, False):
+        bad.append("%s(var): plain -> %s, after the Var got ^:%s -> %s, after the marking was removed -> %s (expected False, True, False)" % (fname, first, key, second, third))
+for line in bad:
+    print(line)
+print("REPRODUCED" if bad else "not reproduced")
+'''
+
+
 NS_REPLAY = r'''
 from basilisp.lang import runtime as rt, symbol as sym, keyword as kw, map as lmap
 bad = []
@@ -495,6 +516,37 @@ def add_generator_contracts(pack):
         return z3.And(exact(e, n, ast.Call), fld(st, n, "func") == e.lift(FIND, st), z3.Length(args) == 1, z3.Length(lst(st, fld(st, n, "keywords"))) == 0,
                       exact(e, inner, ast.Call), fld(st, inner, "func") == e.lift(NEWSYM, st), z3.Length(iargs) == 1, exact(e, iargs[0], ast.Constant), fld(st, iargs[0], "value") == vname,
                       z3.Length(ikws) == 1, exact(e, kw0, ast.keyword), fld(st, kw0, "arg") == V.mk_str("ns"), exact(e, fld(st, kw0, "value"), ast.Constant), fld(st, fld(st, kw0, "value"), "value") == nsname)
+
+    # the two predicates themselves: a function of the Var's *current* metadata (a re-def may add :redef / :dynamic)
+    def flag_setup(eng, st):
+        lib.install(eng)
+        lib.install_wrappers(eng)
+        from pyvc.monitor import Monitor
+
+        pmid = eng.class_id(PersistentMap)
+        eng.class_id(rt.Var)
+        eng.field_types[("Var", "_meta")] = lambda v: (z3.Or(V.is_none(v), z3.And(V.is_ref(v), V.cls_of(V.Val.a(v)) == pmid)), None)
+        Monitor("_lock", owned=[]).install(eng, st)
+
+    for fname, key in (("_is_dynamic", gen.SYM_DYNAMIC_META_KEY), ("_is_redefable", gen.SYM_REDEF_META_KEY)):
+        c = pack.contract(f"basilisp.lang.compiler.generator:{fname}")
+        c.entry_live = True
+        c.param("v", OBJ(rt.Var))
+        c.setup(flag_setup)
+        c.raises()
+
+        def flag_post(a, key=key):
+            st = a.pre.st
+            meta = fld(st, a.v, "_meta")
+            inner = fld(st, meta, "_inner")
+            kn = lib.key_norm(a.eng.lift(key, st))
+            m, d = V.map_of(V.Val.a(inner)), V.dom_of(V.Val.a(inner))
+            return a.result == z3.If(z3.And(z3.Not(V.is_none(meta)), z3.Select(d, kn), z3.Not(V.is_none(z3.Select(m, kn)))), z3.Select(m, kn), V.mk_bool(False))
+
+        c.ensures("the answer is read from the Var's current metadata (the value under the key; false when there is no metadata, no such key, or nil under it) - "
+                  "not from an earlier state of the Var", flag_post)
+        c.replay(lambda m, ctx, ob: FLAG_REPLAY)
+        c.replay_without_model = True
 
     c = pack.contract("basilisp.lang.compiler.generator:_var_sym_to_py_ast")
     c.param("ctx", OBJ(GCtx)).param("node", OBJ(VarRef)).param("is_assigning", BOOL)
